@@ -85,6 +85,12 @@ def run(R):
         R.count(("split", hc.signature(b)))
     for n in ([33, 48, 80] if thorough else [33]):
         add("seeded0", keys[0][1], msgstream[:n], [1] * n, "bytewise")
+    if thorough:
+        # seeded keys x seeded lengths, and every length 0..300 for one key
+        for i in range(300):
+            add("rand%d" % i, rnd("rand%d" % i), msgstream[:R.rng.randrange(0, 400)], [], "rand")
+        for n in range(81, 301):
+            add("seeded0", keys[0][1], msgstream[:n], [R.rng.randrange(1, n)], "len")
     for n in ([1000, 4096] if thorough else [1024]):
         add("seeded1", keys[1][1], msgstream[:n], [5, 16, 29, 64, 100], "long")
     # inputs crafted for every carry / wrap / select branch of the 26-bit-limb code (Poly1305Donna.tla names the branches); each
@@ -92,7 +98,7 @@ def run(R):
     from props import polycraft
     crafted = []
     for cls in polycraft.CLASSES:
-        for j in range(4 if thorough else 2):
+        for j in range(40 if thorough else 2):
             r = polycraft.craft(cls, R.rng)
             if r is None:
                 raise vlib.ToolError("no Poly1305 input of class %s could be crafted" % cls)
@@ -100,7 +106,7 @@ def run(R):
             add("crafted:" + cls, r[0], r[1], [], "crafted")
             add("crafted:" + cls, r[0], r[1], [7], "crafted-split")
     R.rule = ("[new, input..., result|raw_result] per (key class, message, chunking): keys = seeded, all-ones, zero, r in 0..5, r max, clamped-bit patterns; messages = lengths "
-              + ("0..80" if thorough else "boundary set up to 80") + ", saturating/wrap-around specials, seeded up to 4 KiB, inputs crafted for each branch class of the limb code (%d classes x %d);" % (len(polycraft.CLASSES), 4 if thorough else 2) + " chunkings = whole, byte-wise, TLC-generated splits at buffer size 16; "
+              + ("0..80" if thorough else "boundary set up to 80") + ", saturating/wrap-around specials, seeded up to 4 KiB, inputs crafted for each branch class of the limb code (%d classes x %d);" % (len(polycraft.CLASSES), 40 if thorough else 2) + " chunkings = whole, byte-wise, TLC-generated splits at buffer size 16; "
               "distinct = (key class, message class/length, chunking); non-trivial = non-empty message")
     res = R.conform("TraceMac", hs, cost=mc.cost_mac, describe=mc.describe)
     # case analysis of the limb code on the inputs used: the donna transcription refines the RFC definition on each of them, and every branch
@@ -110,7 +116,7 @@ def run(R):
     for h in hs:
         msg = [b for e in h["ev"] if e["op"] == "input" for b in e["data"]]
         sig = (tuple(h["key"]), tuple(msg))
-        if sig not in seen and len(msg) <= 64 and len(pool) < (400 if thorough else 140):
+        if sig not in seen and len(msg) <= 64 and len(pool) < (1500 if thorough else 140):
             seen.add(sig)
             pool.append({"id": R.next_id(), "ev": [{"op": "mac", "key": h["key"], "data": msg, "out": {"k": "v", "v": []}}]})
     if not R.collect:
